@@ -5,7 +5,7 @@ LEVEL = "model_checking"
 def run(ctx):
     for fam in ['agg']:
         sqlprop.laws(ctx, f"SqlLaws_{fam}_{ctx.tier}.cfg")
-    sqlprop.run_sql_property(ctx, corpus=['agg', 'big', 'aggwide'], seeded=[('single', {'group': True, 'having': True, 'boolops': False, 'group_p': 0.9, 'group_keys_nonnull': True, 'nonnull_col_p': 0.5})], quick_n=250, seeded_quick=250, cfgs=[sqlprop.cfg('mem1'), sqlprop.cfg('mem_b3', batches=3), sqlprop.cfg('mem_b14', batches=14, keep_empty=True), sqlprop.cfg('pq_2f_rg2', layout='parquet', files=2, rg=2), sqlprop.cfg('pq_rg1', layout='parquet', files=1, rg=1)],
+    sqlprop.run_sql_property(ctx, corpus=['agg', 'big', 'aggwide', 'noalias'], seeded=[('single', {'group': True, 'having': True, 'boolops': False, 'group_p': 0.9, 'group_keys_nonnull': True, 'nonnull_col_p': 0.5})], quick_n=250, seeded_quick=250, cfgs=[sqlprop.cfg('mem1'), sqlprop.cfg('mem_b3', batches=3), sqlprop.cfg('mem_b14', batches=14, keep_empty=True), sqlprop.cfg('pq_2f_rg2', layout='parquet', files=2, rg=2), sqlprop.cfg('pq_rg1', layout='parquet', files=1, rg=1)],
         rule='Grouped and global COUNT/SUM/AVG/MIN/MAX/COUNT(DISTINCT) over nullable int/double/string/date columns, NULL keys, empty inputs, HAVING, LEFT JOIN all-NULL groups.')
 
 def replay(ctx, obj):
